@@ -356,14 +356,31 @@ def custom_sections(F):
     # parse pushes (name(), data()) and encode copies name→name, data→data in a plain forward loop
     pi = F.one_fn(name="parse_internal", self_adt="Module")
     pushes = 0
-    for c in walk(pi["body"]):
-        if c.get("k") == "MethodCall" and c["method"] == "push" and (place_path(c["recv"]) or "") == "custom_sections":
-            t = peel(c["args"][0])
-            pushes += 1
-            ok = t.get("k") == "Tup" and peel(t["elems"][0]).get("method") == "name" and peel(t["elems"][1]).get("method") == "data"
-            r.ob(ok)
-            if not ok:
-                r.violate("%s | push shape" % pi["path"], F.loc(pi, c), "custom section is not stored as (reader.name(), reader.data())")
+    for pf in (pi, F.one_fn(name="parse_comp", self_adt="Component")):
+        for c in walk(pf["body"]):
+            if c.get("k") == "MethodCall" and c["method"] == "push" and (place_path(c["recv"]) or "") == "custom_sections":
+                t = peel(c["args"][0])
+                pushes += 1
+                # both components come from the section reader itself (name() / data()): its ranges are absolute offsets of the
+                # outermost binary, so re-slicing the current (possibly nested) buffer with them reads other bytes
+                def through_let(e_, pf=pf):
+                    e_ = peel(e_)
+                    for _ in range(3):
+                        if e_.get("k") == "Path" and e_.get("res", {}).get("r") == "local":
+                            st_ = [s_ for s_ in walk(pf["body"]) if s_.get("k") == "Let" and s_["pat"].get("k") == "Binding" and s_["pat"]["hid"] == e_["res"]["hid"] and "init" in s_]
+                            if st_:
+                                e_ = peel(st_[0]["init"])
+                                continue
+                        break
+                    return e_
+                if t.get("k") == "Path":
+                    t = through_let(t)
+                e0, e1 = (through_let(t["elems"][0]), through_let(t["elems"][1])) if t.get("k") == "Tup" and len(t.get("elems", [])) == 2 else ({}, {})
+                ok = e0.get("k") == "MethodCall" and e0.get("method") == "name" and e1.get("k") == "MethodCall" and e1.get("method") == "data" \
+                    and place_path(e0["recv"]) == place_path(e1["recv"])
+                r.ob(ok)
+                if not ok:
+                    r.violate("%s | push shape" % pf["path"], F.loc(pf, c), "custom section is not stored as (reader.name(), reader.data())")
     r.count("parse_pushes", pushes)
     # every custom-section kind except the name section is stored, unconditionally
     KC = "wasmparser::KnownCustom"
